@@ -822,6 +822,35 @@ def _tracked_bools(fn):
     return out
 
 
+def _variant_index(prog, aggname):
+    """index of the variant named by an aggregate name `path::Enum::Variant`."""
+    if aggname.startswith("std::option::Option::"):
+        return {"None": 0, "Some": 1}.get(aggname.rsplit("::", 1)[1])
+    if aggname.startswith("std::result::Result::"):
+        return {"Ok": 0, "Err": 1}.get(aggname.rsplit("::", 1)[1])
+    if "::" in aggname:
+        base, var = aggname.rsplit("::", 1)
+        adt = prog.adts.get(base)
+        if adt and adt["kind"] == "enum":
+            for i, v in enumerate(adt["variants"]):
+                if v["name"] == var:
+                    return i
+    return None
+
+
+def _tracked_enums(fn):
+    """User-named locals every whole-definition of which is an enum-variant aggregate (e.g. an Option built as
+    Some(..)/None on different branches)."""
+    out = set()
+    for n, (ty, name) in enumerate(fn.locals):
+        if not name or n <= fn.argc:
+            continue
+        ds = [d for d in fn.defs().get(n, []) if (d[2] == "assign" and not d[3][3][1]) or d[2] == "call"]
+        if len(ds) >= 2 and all(d[2] == "assign" and d[3][4][0] == "agg" and d[3][4][1] == "adt" and _variant_index(fn.prog, d[3][4][2]) is not None for d in ds):
+            out.add(n)
+    return out
+
+
 def _eval_bool_operand(fn, op, known, depth=0):
     if op[0] == "k":
         return op[2] if isinstance(op[2], bool) else None
@@ -857,7 +886,8 @@ def reach_bool(fn, start, avoid_edges=(), avoid_blocks=(), cap=200000):
     """Like Fn.reach, but tracks the constant value of user-named bool locals along each path and follows only
     the consistent edge of a switch whose operand evaluates from them (handles `let ok = a && b; if !ok {..}`)."""
     tracked = _tracked_bools(fn)
-    if not tracked:
+    tracked_e = _tracked_enums(fn)
+    if not tracked and not tracked_e:
         return fn.reach(start, avoid_edges=avoid_edges, avoid_blocks=avoid_blocks)
     ae2 = set(e for e in avoid_edges if len(e) == 2)
     ae3 = set(e for e in avoid_edges if len(e) == 3)
@@ -886,8 +916,15 @@ def reach_bool(fn, start, avoid_edges=(), avoid_blocks=(), cap=200000):
                     known.pop(s[3][0], None)
                 else:
                     known[s[3][0]] = v
+            elif s[2] == "=" and not s[3][1] and s[3][0] in tracked_e:
+                rv = s[4]
+                idx = _variant_index(fn.prog, rv[2]) if rv[0] == "agg" and rv[1] == "adt" else None
+                if idx is None:
+                    known.pop(s[3][0], None)
+                else:
+                    known[s[3][0]] = ("v", idx)
         t = fn.term(b)
-        if t[2] == "call" and not t[5][1] and t[5][0] in tracked:
+        if t[2] == "call" and not t[5][1] and (t[5][0] in tracked or t[5][0] in tracked_e):
             known.pop(t[5][0], None)
         only = None
         if t[2] == "switch":
@@ -896,6 +933,21 @@ def reach_bool(fn, start, avoid_edges=(), avoid_blocks=(), cap=200000):
                 v = _eval_bool_operand(fn, t[3], known)
                 if v is not None:
                     only = ("sw", "otherwise") if v else ("sw", 0)
+            elif tracked_e and t[3][0] in "cm" and not t[3][1][1]:
+                ds = fn.defs().get(t[3][1][0], [])
+                if len(ds) == 1 and ds[0][2] == "assign" and ds[0][3][4][0] == "discr":
+                    pl = ds[0][3][4][1]
+                    base = pl[0]
+                    projs = [e for e in pl[1] if e != "*"]
+                    # `if let Some(ref k) = memo_key` reads discr through a reference temp: follow one copy
+                    if base not in known and not projs:
+                        d2 = fn.defs().get(base, [])
+                        if len(d2) == 1 and d2[0][2] == "assign" and d2[0][3][4][0] == "ref" and not d2[0][3][4][2][1]:
+                            base = d2[0][3][4][2][0]
+                    kv = known.get(base)
+                    if not projs and isinstance(kv, tuple) and kv[0] == "v":
+                        listed = [v for v, _ in t[4]]
+                        only = ("sw", kv[1]) if kv[1] in listed else ("sw", "otherwise")
         kn2 = frozenset(known.items())
         for (tg, lab) in fn.succ(b):
             if only is not None and lab != only:
